@@ -115,6 +115,7 @@ theorem handler_posEff {c : Cfg} {s s1 : St} {e : Env} {op : Op} {m : List Msg}
       · injection h with h; injection h with h1 h2; subst h1
         exact ⟨Or.inl rfl, Or.inl rfl⟩
   | helperDeposit a0 a1 dur => cases h
+  | helperDepositAs x0 x1 a0 a1 dur => cases h
 
 theorem step_PKeys {c : Cfg} {s s' : St} {e : Env} {op : Op} (hP : PKeys s) (h : step c s e op = .ok s') :
     PKeys s' := by
